@@ -1,8 +1,9 @@
 SPECIFICATION Spec
 CONSTANTS
-  Depth = 2
+  MaxVals = 60
+  Depth = 3
   MaxLen = 2
   WideDepth = 2
   RowBudget = 20
-INVARIANTS Typed ThmRoundTrip ThmLevels ThmInjective
+INVARIANTS Typed ThmRoundTrip ThmLevels ThmInjective ThmCount
 CHECK_DEADLOCK FALSE
